@@ -85,6 +85,18 @@ class Representer:
         logger.debug('End representing {}'.format(data))
         return represented
 
+    def sweeten(self, dumper: 'Dumper', node: Node) -> None:
+        """Applies the _yatiml_sweeten() functions for our class.
+
+        These are the ones defined by the class itself and by its
+        registered base classes, see :meth:`__sweeten`.
+
+        Args:
+            dumper: The dumper that is dumping this object.
+            node: The node to sweeten.
+        """
+        self.__sweeten(dumper, self.class_, node)
+
     def __sweeten(
             self, dumper: 'Dumper', class_: Type, node: Node,
             done: Optional[Set[Type]] = None) -> None:
@@ -162,9 +174,8 @@ class EnumRepresenter:
 
         # sweeten
         snode = Node(represented)
-        if hasattr(self.class_, '_yatiml_sweeten'):
-            self.class_._yatiml_sweeten(snode)
-            represented = snode.yaml_node
+        Representer(self.class_).sweeten(dumper, snode)
+        represented = snode.yaml_node
 
         logger.debug('End representing {}'.format(data))
         return represented
@@ -205,18 +216,11 @@ class UserStringRepresenter:
 
         # sweeten
         snode = Node(represented)
-        if hasattr(self.class_, '_yatiml_sweeten'):
-            self.class_._yatiml_sweeten(snode)
-            if not isinstance(snode.yaml_node, yaml.Node):
-                raise RuntimeError(
-                        ('After sweetening an object of class {},'
-                         ' node.yaml_node is not a yaml.Node. Please'
-                         ' check your _yatiml_sweeten() function.'
-                         ).format(self.class_.__name__))
-            represented = snode.yaml_node
-            # if the object occurs again, it must get the sweetened node
-            if id(data) in dumper.represented_objects:
-                dumper.represented_objects[id(data)] = represented
+        Representer(self.class_).sweeten(dumper, snode)
+        represented = snode.yaml_node
+        # if the object occurs again, it must get the sweetened node
+        if id(data) in dumper.represented_objects:
+            dumper.represented_objects[id(data)] = represented
 
         logger.debug('End representing {}'.format(data))
         return represented
